@@ -37,6 +37,8 @@ pub mod parse_error;
 mod parser;
 mod variables;
 
+#[cfg(feature = "tsg-verif")]
+pub use checker::CheckError;
 pub use execution::error::ExecutionError;
 #[cfg(feature = "tsg-verif")]
 pub use execution::error::{Context, StatementContext};
